@@ -248,6 +248,11 @@ def C10(tier, seed):
                         "in order, with the tick's net liquidity; no step jumps an initialized tick; identical outcome for all packagings supplying the window; truncated packagings fail or agree; "
                         "foreign arrays rejected. The path predicate is also evaluated on the swaps of random histories."}
     p["drivers"] += hist_jobs("hist_spl_", seed, 2 if tier == "quick" else 8, 4 if tier == "quick" else 40, 150, "spl")
+    # two-hop swaps: a third of the v2 ones are submitted in another packaging (first array repeated in the static slots + the rest in the leg's
+    # supplemental slice, or the static slots reversed, per leg) and compared with the canonical packaging of the same two-hop
+    shards, worlds, attempts = (2, 4, 150) if tier == "quick" else (8, 12, 400)
+    for s_ in range(shards):
+        p["drivers"].append({"name": f"twohop_{s_}", "args": ["twohop", "--seed", str(seed * 100 + 30 + s_), "--worlds", str(worlds), "--attempts", str(attempts)]})
     return p
 
 
@@ -377,7 +382,7 @@ def C20(tier, seed):
         tag = tk + ("_af" if extra else "")
         drivers += hist_jobs(f"sdk_{tag}_", seed, 2 if q else 6, 4 if q else 40, 200 if q else 300, tk, ["--sdk", "1"] + extra)
     # histories with reward emissions: the SDK's fee / reward quotes against what update_fees_and_rewards records (wider specification, W6)
-    drivers += hist_jobs("sdk_rw_", seed, 1 if q else 4, 4 if q else 40, 200 if q else 300, "spl", ["--sdk", "1", "--rewards", "1"])
+    drivers += hist_jobs("sdk_rw_", seed, 2 if q else 4, 4 if q else 40, 200 if q else 300, "spl", ["--sdk", "1", "--rewards", "1"])
     drivers += fn_jobs("sdkconv", tier, seed, 1500, 60000, shards_q=2, shards_t=8, extra=["--stride", "16" if q else "1"])
     return {"active": ["C20"], "drivers": drivers, "models": [], "exhaustive": False,
             "must_exercise": {"swap": 50, "swap_v2": 50},
@@ -405,12 +410,14 @@ MUST_HIT = {
     "C08": {"liq.price_below_range": 30, "liq.price_in_range": 30, "liq.price_above_range": 30, "liq.first_deposit": 20, "liq.partial_decrease": 20, "liq.decrease_to_zero": 30,
             "liq.range_changed": 3},
     "C10": {"swap.crosses>=3_ticks": 50, "swap.crosses_ticks_of_two_arrays": 50, "swap.ends_on_initialized_tick.a_to_b": 50, "swap.ends_on_initialized_tick.b_to_a": 50,
-            "swap.starts_on_initialized_tick_shifted": 50, "swap.starts_on_initialized_tick_unshifted": 20},
+            "swap.starts_on_initialized_tick_shifted": 50, "swap.starts_on_initialized_tick_unshifted": 20,
+            "twohop.repackaged": 10, "twohop.repackaged.second_leg_leaves_its_first_array": 2, "twohop.repackaged.first_leg_leaves_its_first_array": 2},
     "C11": {"reward.interval_accrues": 10, "reward.zero_elapsed_time": 50, "reward.two_or_more_rewards": 50, "liq.credits_rewards": 5, "reward.swap_crosses_tick_with_rewards": 5,
             "collect_reward.index>=1": 3},
     "C12": {"liq.mixed_array_encodings": 5, "liq.deinitializes_a_tick": 20, "liq.initializes_a_tick": 10},
     "C14": {"af.reference_decayed_nonzero": 3, "af.reference_reset_after_an_hour": 10, "af.reference_kept_inside_filter_period": 50, "af.reference_reset_beyond_decay": 3,
-            "af.accumulator_at_maximum": 20, "af.step_spans_several_groups": 20, "af.skipped_step": 30, "af.major_swap": 10, "af.negative_tick_group": 30},
+            "af.accumulator_at_maximum": 20, "af.step_spans_several_groups": 20, "af.skipped_step": 30, "af.major_swap": 10, "af.negative_tick_group": 30,
+            "af.price_moved_exactly_by_the_major_swap_threshold": 3},
     "C16": {"swap.input_mint_has_transfer_fee": 30, "swap.output_mint_has_transfer_fee": 30, "liq.transfer_fee_mint": 50},
     "C17": {"twohop.exact_out": 10, "twohop.explicit_limit": 10, "twohop.mixed_direction": 10, "twohop.same_direction": 10, "twohop.leg_crosses_a_tick": 3,
             "refused.twohop_first_leg_before_trade_enabled": 5, "refused.twohop_second_leg_before_trade_enabled": 5, "refused.twohop_v1_second_leg_before_trade_enabled": 3},
